@@ -264,7 +264,12 @@ class Executor:
         while stack:
             st, bb, visits = stack.pop()
             body = self.bodies[st.body_name]
+            entered = False
             while True:
+                if entered and not st.frames and bb in getattr(self, "stop_blocks", ()):
+                    out.append(Outcome("reach", st, bb=bb))
+                    break
+                entered = True
                 st.steps += 1
                 if st.steps > 4000:
                     raise Unsupported(f"step budget exceeded in {body.name}")
